@@ -18,6 +18,7 @@ from vf.runner import Ob
 from vf.sched import Sched
 
 LEVEL = "other"
+TECHNIQUE = ('symx: symbolic power-loss index over the FakeOS call trace in a durability-shadow model + flip-instant durability assertion under symbolic schedules; must-fail twins')
 EXPLANATION = (
     "Bounded symbolic execution (symx/z3) of every local operation type with a symbolic power-loss index over its "
     "complete FakeOS call trace, evaluated in a power-loss model that drops all unflushed content and unpersisted "
